@@ -52,6 +52,18 @@ TEXT.update({
             "agreement with the nearest-face oracle in lat/lng is outside (trig); lattice components only at res 0-2 (coordinate arithmetic)."),
 })
 
+# later revisions of the claims (override the entries above)
+TEXT["C07"] = ("the mechanisms that do not need cell geometry: the integer traversal (nextCell is the exact pre-order successor skipping the sub-tree, every resolution); ONE step of the compact polygon iterator from any mid-traversal state against an independently written hierarchical search, for all four containment modes and any (consistent) answers of the geometric predicates; the polygon-level bookkeeping of polygon.c (every loop paired with its own bounding box, inside the outer loop and outside every hole); the bounding-box pruning algebra on all in-range doubles; flag / resolution rejection before any geometry on all 2^32 flag words; the empty polygon.",
+               "NOT decided: which cells are returned (cell centres: trig; empirically scaled cellToBBox; ray cast pointInside*: symbolic FP division - probed, no verdict), both size bounds, the legacy flood fill's hashing. Changes confined to the trig / estimate / ray-cast / FP-constant layer are not detected (seeded S29).")
+TEXT["C15"] = (TEXT["C15"][0] + " Also the polygon-level bookkeeping (loops paired with their boxes, holes) and one step of the compact iterator for all four modes against an independent hierarchical search (same jobs as C07).", TEXT["C15"][1])
+TEXT["C08"] = ("the lattice / count / bookkeeping / unit clauses: cellToBoundary = the full corner loop of the cell (semantic boundary stub), cellAreaRads2 = sum over ALL boundary segments of the triangle with the centre, cellAreaKm2 = Rads2*R^2 and M2 = Km2*10^6 with error propagation (glue); vertex counts of cellToBoundary with the projection stubbed and the shared-corner lattice identity across an edge at res 0-1 (thorough).", TEXT["C08"][1])
+TEXT["C10"] = ("isValidDirectedEdge equals the documented layout on ALL 2^64 words; edge (origin,direction) decodes to (origin, neighbour) for every valid cell and direction; cellsToDirectedEdge on every neighbour pair and on an arbitrary 64-bit destination (E_NOT_NEIGHBORS) at low resolutions; originToDirectedEdges at all resolutions; directedEdgeToBoundary = the two consecutive corners starting at the edge's start vertex (semantic boundary stub); edgeLengthRads = sum over all consecutive boundary points; unit scaling of edgeLengthKm/M.",
+               "boundary coordinates and the great-circle length of one segment are outside (trig).")
+TEXT["C11"] = ("assume-guarantee: the real cellToVertex / isValidVertex / cellToVertexes / vertexToLatLng verified against arbitrary component values (any 64-bit cell word; vertexToLatLng returns the owner's n-th TOPOLOGICAL corner for any distortion pattern), and the component contracts (neighbour step C05, vertex/direction bijection, centre-child minimality, corner triangle) verified on the real code over all cells of the stated resolutions.", TEXT["C11"][1])
+TEXT["C19"] = ("assume-guarantee: the real getIcosahedronFaces against arbitrary vertex faces with an exact-size heap buffer (distinct faces in first-seen order, -1 padding, E_FAILED exactly on overflow, no access beyond maxFaceCount slots, a Class II pentagon is evaluated on its centre child); on the real lattice code every hexagon vertex lies on the centre's face or an adjacent one and a hexagon touches at most one other face (res 0-1 quick, 0-2 thorough).", TEXT["C19"][1])
+TEXT["C17"] = (TEXT["C17"][0], "compactCells 3 arbitrary words (6 thorough); areNeighborCells / gridDisk / gridDiskDistances k=1 on every valid cell of res 0-1 (0-3 thorough) and gridDisk on ANY 64-bit origin word (error paths of the fallback); experimental polyfill on triangles with 0-1 hole under over-approximated geometry, <= 3 geometry evaluations; legacy polygonToCells: allocation prologue / tracer errors / epilogue (flood fill with a seed: thorough, class X).")
+TEXT["C14"] = (TEXT["C14"][0] + " Component: consistency of the local IJ chart the path is interpolated in (cellToLocalIj / localIjToCell round trip, res 1).", TEXT["C14"][1])
+
 NA = {
 }
 
